@@ -25,6 +25,7 @@ print('''You are testing how good a (separately built, hidden from you) verifica
 * It clearly violates the property as stated (statement + quantifier), not merely some neighbouring behaviour.
 * The existing test suite passes with it: run `cd %(wt)s && PYTHONPATH=%(wt)s /venv/bin/python -m pytest -q -p no:cacheprovider yaql/tests` (366 tests; about 6 s). Use `/venv/bin/python` with `PYTHONPATH=%(wt)s` and a cwd outside the worktree whenever you run code, so that the worktree's yaql is the one imported (check `yaql.__file__`). Do not edit the tests. Do not leave generated files (e.g. parser.out, parsetab) modified unless the change really needs it.
 * Earlier changes (listed below) mostly edited the anchored functions directly. Prefer something they did not try: an indirect path to the same behaviour (another public API entry point such as YaqlInterface / yaql.eval / engine.copy / legacy mode / delegates / another context class or naming convention / method vs function call form), state that survives between two uses, a fast path or cache keyed too coarsely, an interaction of two features, or a boundary value of a configuration option.
+* Further directions worth considering: behaviour under non-default engine options or their boundary values; error paths (an exception raised half-way that leaves state behind for the next use); re-entrancy (an expression evaluated from inside a host function that another expression is calling); objects that live longer than one evaluation (engines, contexts, statements, compiled regexes, definitions shared between contexts); differences between equal-looking values (tuple vs list, dict vs frozen dict, bool vs int, generator vs list); library functions that reach the anchored code indirectly.
 * Changes already written by others for this property - do something different in mechanism and location:
 %(taken)s
 
